@@ -115,6 +115,7 @@ def generate(seed, tier):
         steady['excluded'] = ['t', names[S['knobs'].randrange(len(names))]]
     elif r < 0.2:
         steady['excluded'] = []
+    steady['excluded_how'] = S['swarm'].choice(['assign', 'inplace', 'default'])
     knobs = {'reduction': S['knobs'].random() < 0.6, 'tol_param': 1e-12 if S['knobs'].random() < 0.85 else None,
              'cap': None, 'trace_step': S['knobs'].choice([None, None, None, 1]), 'maxtime_attr': None,
              'tick_var': None, 'steady': steady}
@@ -175,7 +176,17 @@ def execute(case):
                 solver.TraceStep = knobs['trace_step']
             solver.ParameterInitialSteadyStateMaxTime = int(st['T'])
             solver.ParameterInitialSteadyStateErrorToler = float(st['tol'])
-            solver.ParameterInitialSteadyStateExcludedVariables = list(st['excluded'])
+            how = st.get('excluded_how', 'assign')
+            if how == 'inplace' and 't' in st['excluded']:
+                # the documented default is ['t']; a script adds its own names to this solver's list in place
+                for v in st['excluded']:
+                    if v not in solver.ParameterInitialSteadyStateExcludedVariables:
+                        solver.ParameterInitialSteadyStateExcludedVariables.append(v)
+                stats['probes']['exclusion_list_extended_in_place'] = 1
+            elif how == 'default' and list(st['excluded']) == ['t']:
+                stats['probes']['exclusion_list_left_at_default'] = 1      # relies on the documented default
+            else:
+                solver.ParameterInitialSteadyStateExcludedVariables = list(st['excluded'])
             solver.ExtractVariableList()
             solver.SetInitialConditions()
     except Exception as ex:   # noqa
